@@ -89,7 +89,8 @@ class Runner:
                                (config.get('connect_script') or {}).items()}
         # behaviours of the next disconnect handler invocations:
         # 'ok' | 'exc' (raises an Exception) | 'base' (a BaseException)
-        self.disconnect_script = []
+        self.disconnect_script = list(config.get('disconnect_behaviours')
+                                      or [])
         self.sid_names = {}
         self.issued = {}          # (T, ns) -> [sids in order]
         self.all_sids = []
